@@ -27,7 +27,7 @@ var mixes = map[string][]string{
 	"gov": {"stake", "stake", "votebp", "votebp", "votebp", "votedao", "votedao", "xfer", "name", "name-update", "votebp-nostake", "unstake"},
 	"wide": {"xfer", "xfer-new", "xfer", "xfer-zero"},
 	"ties":     {"stake", "stake", "votedao", "votedao", "votedao", "xfer"},
-	"contract": {"deploy", "call-inc", "call-inc", "call-pay", "call-payfail", "call-fail", "call-guarded", "call-nested", "call-default", "feedeleg", "xfer"},
+	"contract": {"deploy", "call-inc", "call-inc", "call-pay", "call-payfail", "call-fail", "call-guarded", "call-nested", "call-nestfail", "call-default", "feedeleg", "xfer"},
 }
 
 func main() {
